@@ -261,10 +261,22 @@ def _build_probe(
             for action_def in actions or []:
                 recorded.append(action_def)
                 if resolve_builtin(action_def.type) == ASSIGN:
-                    self._apply_assign(
-                        self._resolve_params(action_def.params, event) or {},
-                        event,
-                    )
+                    # 🛡️ Same containment as both interpreters: a raising
+                    #    assignment (or params callable) cuts this action
+                    #    list short; it must not escape `transition()`.
+                    try:
+                        self._apply_assign(
+                            self._resolve_params(action_def.params, event)
+                            or {},
+                            event,
+                        )
+                    except Exception:
+                        logger.exception(
+                            "🔥 Built-in action '%s' raised in the pure "
+                            "API; skipping remaining actions.",
+                            action_def.type,
+                        )
+                        return
 
         def _schedule_state_tasks(self, state: Any) -> None:
             """Suppresses timers and invoked services entirely."""
